@@ -447,6 +447,29 @@ func init() {
 							if s, ok := newEmitter(c, ld).constString(el); ok && s == "-tags=wireinject" {
 								found = true
 							}
+							// a local that starts as the constant and is only ever extended with " " + more
+							if v := ld.varOf(el); v != nil {
+								okV := false
+								for _, d := range ld.defs[v] {
+									switch d.kind {
+									case "define":
+										if s, ok := newEmitter(c, ld).constString(d.rhs); ok && s == "-tags=wireinject" {
+											okV = true
+										}
+									case "opassign":
+										as := d.node.(*ast.AssignStmt)
+										be, isB := ast.Unparen(d.rhs).(*ast.BinaryExpr)
+										if as.Tok != token.ADD_ASSIGN || !isB || be.Op != token.ADD || types.ExprString(be.X) != `" "` {
+											okV = false
+										}
+									default:
+										okV = false
+									}
+								}
+								if okV {
+									found = true
+								}
+							}
 						}
 					}
 					flagsField = kv.Value
